@@ -200,6 +200,11 @@ class WindowModel(Model):
             E = self.cur(it, fr, 'mEndDataPtr')
             self.require(it, fr, n, 'memcpy(%r, %r, %r) must stay inside the buffer and read cached bytes only' % (d, s_, ln),
                          [le(0, ln), le(Lin.sym('B'), d), le(d + ln, Lin.sym('B') + self.chunk), le(Lin.sym('B'), s_), le(s_ + ln, E)])
+            if q in ('std::memcpy', 'memcpy'):
+                # memcpy requires disjoint regions (memmove does not): squeezing the unread bytes to the front overlaps whenever more bytes are
+                # unread than have been consumed
+                self.require(it, fr, n, 'memcpy(%r, %r, %r): source and destination must not overlap (use memmove to squeeze the buffer)' % (d, s_, ln),
+                             [le(d + ln, s_)])
             it.act('MEMCPY', d, s_, ln)
             return TOP
         if q.startswith('std::make_optional'):
